@@ -65,6 +65,12 @@ func (c *Cache) Get(_ context.Context, key string) ([]byte, error) {
 }
 
 func (c *Cache) Set(_ context.Context, key string, value []byte, ttl time.Duration) error {
+	if ttl <= 0 {
+		// ttlcache treats a non-positive ttl as "use the default ttl" respectively "never expires".
+		// An entry without any remaining lifetime must not be stored at all.
+		return nil
+	}
+
 	c.c.Set(key, value, ttl)
 
 	return nil
